@@ -391,7 +391,7 @@ void runSer(const Op& op, Transcript& t) {
       size_t r3 = ser(f, src, pr);
       if (r3 != len || lp.accepted != T)
         violate(cls + ":destination", "Print: returned " + std::to_string(r3) + " / content differs");
-      if (f != MsgPack && T.find('\0') == std::string::npos) {
+      if (T.find('\0') == std::string::npos) {  // (an Arduino String ends at the first NUL: MessagePack only when it has none)
         ::String as("junk");
         as.limitCapacityTo(len + 64);
         size_t r4 = ser(f, src, as);
